@@ -1,4 +1,6 @@
-use super::field_utils::{parse_name_and_address, parse_party_identifier};
+use super::field_utils::{
+    ensure_no_surplus_lines, parse_name_and_address, parse_party_identifier,
+};
 use super::swift_utils::{parse_bic, parse_max_length};
 use crate::errors::ParseError;
 use crate::traits::SwiftField;
@@ -49,6 +51,7 @@ impl SwiftField for Field54A {
 
         // Parse BIC code
         let bic = parse_bic(lines[line_idx])?;
+        ensure_no_surplus_lines(&lines, line_idx + 1, "Field 54A")?;
 
         Ok(Field54A {
             party_identifier,
@@ -105,9 +108,16 @@ impl SwiftField for Field54B {
         }
 
         // Remaining line is location
-        if line_idx < lines.len() && !lines[line_idx].is_empty() {
+        if line_idx < lines.len() {
+            if lines[line_idx].is_empty() {
+                return Err(ParseError::InvalidFormat {
+                    message: "Field 54B must not contain an empty line".to_string(),
+                });
+            }
             location = Some(parse_max_length(lines[line_idx], 35, "Field54B location")?);
+            line_idx += 1;
         }
+        ensure_no_surplus_lines(&lines, line_idx, "Field 54B")?;
 
         Ok(Field54B {
             party_identifier,
